@@ -163,29 +163,98 @@ type summary struct {
 	Extra       map[string]float64 `json:"extra"`
 }
 
-// startWorker runs one worker process; returns its summary or an error text.
-func startWorker(bin string, dir string, j job, tag string, extraEnv []string, memKB int) (*summary, string) {
+type crashInfo struct {
+	Idx  int             `json:"idx"`
+	Spec json.RawMessage `json:"spec"`
+	Sig  string
+	Msg  string
+}
+
+// fatalSignature derives a stable signature part from a Go runtime crash log:
+// the kind of fatal error and the first repository frame of the running goroutine.
+func fatalSignature(log string) (string, string) {
+	kind := "other"
+	msg := ""
+	for _, ln := range strings.Split(log, "\n") {
+		if strings.HasPrefix(ln, "fatal error: ") || strings.HasPrefix(ln, "panic: ") {
+			msg = ln
+			switch {
+			case strings.Contains(ln, "stack overflow"):
+				kind = "stack-overflow"
+			case strings.Contains(ln, "concurrent map"):
+				kind = "concurrent-map"
+			case strings.Contains(ln, "all goroutines are asleep"):
+				kind = "go-deadlock"
+			case strings.HasPrefix(ln, "panic: "):
+				kind = "panic"
+			}
+			break
+		}
+	}
+	if msg == "" {
+		return "", ""
+	}
+	frame := "?"
+	lines := strings.Split(log, "\n")
+	for i, ln := range lines {
+		if strings.HasPrefix(ln, "goroutine ") && strings.Contains(ln, "[running") {
+			for _, f := range lines[i+1:] {
+				if f == "" {
+					break
+				}
+				if f[0] == '\t' {
+					continue
+				}
+				if j := strings.Index(f, "smarthome-go/homescript/v3/homescript/"); j >= 0 {
+					fn := f[j+len("smarthome-go/homescript/v3/homescript/"):]
+					if k := strings.IndexAny(fn, "({"); k > 0 {
+						fn = fn[:k]
+					}
+					frame = fn
+					break
+				}
+			}
+			break
+		}
+	}
+	return "process-fatal:" + kind + "@" + frame, msg
+}
+
+// startWorker runs one worker process; returns its summary, or an error text,
+// or (for a process-fatal error inside a run) the run that killed it.
+func startWorker(bin string, dir string, j job, tag string, extraEnv []string, memKB int) (*summary, string, *crashInfo) {
 	jobPath := filepath.Join(dir, "job-"+tag+".json")
 	outPath := filepath.Join(dir, "out-"+tag+".json")
 	logPath := filepath.Join(dir, "log-"+tag+".txt")
+	os.Remove(outPath)
+	os.Remove(outPath + ".current")
 	j["out"] = outPath
 	raw, _ := json.Marshal(j)
 	os.WriteFile(jobPath, raw, 0o644)
 	sh := fmt.Sprintf("ulimit -v %d; exec %s -test.run '^TestWorker$' -test.timeout 0 -test.count 1 > %s 2>&1", memKB, bin, logPath)
 	cmd := exec.Command("sh", "-c", sh)
 	cmd.Dir = dir
-	cmd.Env = append(append(os.Environ(), "SIMCHECK_JOB="+jobPath), extraEnv...)
+	cmd.Env = append(append(os.Environ(), "SIMCHECK_JOB="+jobPath, "SIMCHECK_REPO="+filepath.Join(dir, "repo")), extraEnv...)
 	err := cmd.Run()
 	data, rerr := os.ReadFile(outPath)
 	if err != nil || rerr != nil {
 		lg, _ := os.ReadFile(logPath)
-		return nil, fmt.Sprintf("worker %s: %v; log tail:\n%s", tag, err, tail(string(lg), 40))
+		if cur, cerr := os.ReadFile(outPath + ".current"); cerr == nil {
+			var ci crashInfo
+			if json.Unmarshal(cur, &ci) == nil {
+				if sig, msg := fatalSignature(string(lg)); sig != "" {
+					ci.Sig, ci.Msg = sig, msg
+					return nil, "", &ci
+				}
+			}
+		}
+		return nil, fmt.Sprintf("worker %s: %v; log tail:\n%s", tag, err, tail(string(lg), 40)), nil
 	}
 	var s summary
 	if e := json.Unmarshal(data, &s); e != nil {
-		return nil, fmt.Sprintf("worker %s: bad summary: %v", tag, e)
+		return nil, fmt.Sprintf("worker %s: bad summary: %v", tag, e), nil
 	}
-	return &s, ""
+	return &s, "", nil
 }
 
 type knownFinding struct {
@@ -279,13 +348,28 @@ func cmdRun(args []string) {
 	// fan out
 	sums := make([]*summary, nw)
 	errs := make([]string, nw)
+	var crashes []crashInfo
+	var crashMu sync.Mutex
 	var wg sync.WaitGroup
 	for i := 0; i < nw; i++ {
 		wg.Add(1)
 		go func(i int) {
 			defer wg.Done()
-			j := job{"mode": "run", "property": *prop, "tier": *tier, "seed": seed, "worker": i, "workers": nw, "replay_dir": replayDir, "race_bin": b.race}
-			sums[i], errs[i] = startWorker(b.worker, b.dir, j, strconv.Itoa(i), []string{"GOMAXPROCS=1"}, 6_000_000)
+			var skip []int
+			for attempt := 0; attempt < 12; attempt++ {
+				j := job{"mode": "run", "property": *prop, "tier": *tier, "seed": seed, "worker": i, "workers": nw, "replay_dir": replayDir, "race_bin": b.race, "skip": skip}
+				var ci *crashInfo
+				sums[i], errs[i], ci = startWorker(b.worker, b.dir, j, strconv.Itoa(i), []string{"GOMAXPROCS=1"}, 6_000_000)
+				if ci == nil {
+					return
+				}
+				// a run killed the worker process: that is a host crash of that run
+				skip = append(skip, ci.Idx)
+				crashMu.Lock()
+				crashes = append(crashes, *ci)
+				crashMu.Unlock()
+			}
+			errs[i] = fmt.Sprintf("worker %d: more than 12 runs killed the process; giving up on its share", i)
 		}(i)
 	}
 	wg.Wait()
@@ -358,6 +442,23 @@ func cmdRun(args []string) {
 			}
 		}
 	}
+	for _, ci := range crashes {
+		sig := *prop + "|host-crash|no-host-crash|" + ci.Sig
+		if cur, ok := bySig[sig]; ok {
+			cur.Count++
+			continue
+		}
+		var spec map[string]any
+		json.Unmarshal(ci.Spec, &spec)
+		rf := map[string]any{"property": *prop, "signature": sig, "class": "host-crash", "clause": "no-host-crash",
+			"message": "the run killed the worker process: " + ci.Msg, "log_hash": "", "spec": spec, "trace_tail": []string{}, "minimisation_runs": 0}
+		raw, _ := json.MarshalIndent(rf, "", " ")
+		os.MkdirAll(replayDir, 0o755)
+		name := filepath.Join(replayDir, fmt.Sprintf("%s-%s.w0.json", *prop, hash8(sig)))
+		os.WriteFile(name, raw, 0o644)
+		allReplays = append(allReplays, name)
+		bySig[sig] = &violation{Sig: sig, Class: "host-crash", Clause: "no-host-crash", Msg: "the run killed the worker process: " + ci.Msg, Replay: name, Count: 1, Spec: spec}
+	}
 	if len(detMis) > 0 {
 		b.cleanup()
 		infra("NONDETERMINISM: same spec, different event log: %v", detMis)
@@ -397,13 +498,18 @@ func cmdRun(args []string) {
 			b.cleanup()
 			infra("violation %s has no replay file", sig)
 		}
-		rs, e := startWorker(b.worker, b.dir, job{"mode": "replay", "file": v.Replay, "race_bin": b.race}, "replay-"+hash8(sig), nil, 6_000_000)
+		rs, e, ci := startWorker(b.worker, b.dir, job{"mode": "replay", "file": v.Replay, "race_bin": b.race}, "replay-"+hash8(sig), []string{"GOMAXPROCS=1"}, 6_000_000)
 		if e != "" {
 			b.cleanup()
 			infra("replay of %s failed: %s", v.Replay, e)
 		}
-		gotSig, _ := rs.Replay["sig"].(string)
-		gotHash, _ := rs.Replay["log_hash"].(string)
+		var gotSig, gotHash string
+		if ci != nil {
+			gotSig = *prop + "|host-crash|no-host-crash|" + ci.Sig
+		} else {
+			gotSig, _ = rs.Replay["sig"].(string)
+			gotHash, _ = rs.Replay["log_hash"].(string)
+		}
 		if gotSig != sig || (v.Class != "data-race" && gotHash != v.LogHash) {
 			b.cleanup()
 			infra("NONDETERMINISM: replay of %s in a fresh process gave sig=%q hash=%s, recorded sig=%q hash=%s", v.Replay, gotSig, gotHash, sig, v.LogHash)
@@ -469,14 +575,19 @@ func cmdReplay(args []string) {
 	b := prepare(*repo, rf.Property == "C17")
 	defer b.cleanup()
 	abs, _ := filepath.Abs(file)
-	rs, e := startWorker(b.worker, b.dir, job{"mode": "replay", "file": abs, "race_bin": b.race}, "replay", nil, 6_000_000)
+	rs, e, ci := startWorker(b.worker, b.dir, job{"mode": "replay", "file": abs, "race_bin": b.race}, "replay", []string{"GOMAXPROCS=1"}, 6_000_000)
 	if e != "" {
 		b.cleanup()
 		infra("%s", e)
 	}
-	gotSig, _ := rs.Replay["sig"].(string)
-	gotHash, _ := rs.Replay["log_hash"].(string)
-	msg, _ := rs.Replay["msg"].(string)
+	var gotSig, gotHash, msg string
+	if ci != nil {
+		gotSig, msg = rf.Property+"|host-crash|no-host-crash|"+ci.Sig, ci.Msg
+	} else {
+		gotSig, _ = rs.Replay["sig"].(string)
+		gotHash, _ = rs.Replay["log_hash"].(string)
+		msg, _ = rs.Replay["msg"].(string)
+	}
 	fmt.Printf("recorded: sig=%s hash=%s\nreplayed: sig=%s hash=%s\n%s\n", rf.Sig, rf.LogHash, gotSig, gotHash, msg)
 	b.cleanup()
 	if gotSig != "" && gotSig == rf.Sig {
@@ -518,7 +629,7 @@ func cmdSelftest(args []string) {
 				go func(gmp, rep int) {
 					defer wg.Done()
 					tag := fmt.Sprintf("%s-g%d-r%d", prop, gmp, rep)
-					s, e := startWorker(b.worker, b.dir, job{"mode": "hashes", "property": prop, "tier": "quick", "seed": seedFromEnv(), "limit": *limit}, tag, []string{"GOMAXPROCS=" + strconv.Itoa(gmp)}, 6_000_000)
+					s, e, _ := startWorker(b.worker, b.dir, job{"mode": "hashes", "property": prop, "tier": "quick", "seed": seedFromEnv(), "limit": *limit}, tag, []string{"GOMAXPROCS=" + strconv.Itoa(gmp)}, 6_000_000)
 					if e != "" {
 						fmt.Println("INFRA:", e)
 						mu.Lock()
